@@ -78,8 +78,9 @@ func Parse(fontInfo *sfnt.Font, input string) (lookups gtab.LookupList, err erro
 }
 
 type parser struct {
-	tokens  <-chan item
-	backlog []item
+	tokens   <-chan item
+	backlog  []item
+	lastLine int
 
 	fontInfo *sfnt.Font
 	cmap     cmap.Subtable
@@ -1343,7 +1344,13 @@ func (p *parser) readItem() item {
 		p.backlog = p.backlog[:n]
 		return item
 	}
-	return <-p.tokens
+	next, ok := <-p.tokens
+	if !ok {
+		// The lexer has finished: report the end of input, on the last line seen.
+		return item{typ: itemEOF, line: p.lastLine}
+	}
+	p.lastLine = next.line
+	return next
 }
 
 func (p *parser) peek() item {
